@@ -274,6 +274,8 @@ impl Store {
         // hand-off by the last scanned id instead drops an ephemeral frame that was broadcast
         // during the scan whenever the scan also picks up a later stored frame.
         let (broadcast_rx, handoff_id) = if should_follow {
+            #[cfg(feature = "verif")]
+            self.verif.point_lock("read.lock", &self.append_lock);
             let _append_guard = self.append_lock.lock().unwrap();
             (Some(self.broadcast_tx.subscribe()), Some(scru128::new()))
         } else {
